@@ -109,6 +109,11 @@ func (c *Collection) Update(id string, msg proto.Message, opts ...WriteOption) (
 		&c.mu,
 		func() (item proto.Message, err error) {
 			if created != nil {
+				// we are being called again to check for concurrent changes.
+				// The id must still be absent, otherwise somebody else created it while we were preparing our change.
+				if _, exists := c.byId[id]; exists {
+					return nil, ExpectAbsentPreconditionFailed
+				}
 				return created, nil
 			}
 
